@@ -361,14 +361,14 @@ def Minus(s, p):
     return minus(s, p)
 
 
-def given(f):
-    """an optional callback that the code tests by truth value (`if f:`, `f and f(x)`): given = not None and truthy"""
-    return conj(neg(eq(f, NONE)), truthy(f))
+def opt_cb_ok(f):
+    """precondition on an optional callback that the code tests by truth value (`if f:`, `f and f(x)`): it is None or a truthy
+    object, so that "given" means the same under either reading (`is not None` / truthiness)"""
+    return disj(eq(f, NONE), truthy(f))
 
 
 def keep(f, w):
-    # ff_result of the traversals: `(f and f(w)) or (not f)` - an absent *or falsy* filter keeps everything
-    return disj(neg(given(f)), cb1(f, w))
+    return disj(eq(f, NONE), cb1(f, w))
 
 
 def Flt(f, s):
